@@ -47,6 +47,9 @@ PROPS = {
                 trusted=[KERNEL, 'model evaluated inside Coq by vm_compute on generated cases_C09.v (no extraction)',
                          'harness/c09.py: abstraction of live objects through __dict__ (unknown attributes fail closed), HDF5 group dump, value tokens by byte pattern',
                          'modelled not verified: h5py/HDF5 storing and returning values unchanged, MLPRegressor.predict reading only restored attributes (checked behaviourally), numpy Generator state cloning']),
+    'C06': dict(module='c06', pfile='P_C06', required=['C06_atomic', 'C06_inplace_refuted', 'C06_update_refuted'],
+                trusted=[KERNEL, EXTRACTION, 'harness/c06.py: strace log parser (unknown system calls on the checkpoint paths fail closed), mapping of every non-checkpoint file of the checkpoint directory to the temporary T',
+                         'modelled not verified: POSIX rename atomicity, page-cache persistence across process kill (no power loss), HDF5-internal consistency of a completely written and closed file']),
 }
 
 
@@ -61,6 +64,8 @@ def main():
     seed = int(os.environ.get('VERIF_SEED', '20260930'))
     if a.setup:
         ok, log = build()
+        import subprocess
+        subprocess.run(['gcc', '-O2', '-shared', '-fPIC', '-o', os.path.join(common.VERIF, 'native', 'killshim.so'), os.path.join(common.VERIF, 'native', 'killshim.c'), '-ldl'])
         print(log[-3000:])
         print('setup', 'ok' if ok else 'FAILED')
         return 0 if ok else 1
